@@ -59,6 +59,18 @@ w32_build() { # w32_build <out>
   fi
 }
 
+# Third build configuration, for the checks anchored in bmtree (C03 has its own arrangement): the
+# library's openacid/must contracts compiled in (-tags debug). Same fallback rule as above.
+TAGDEBUG_PROPS=" C04 C05 C10 C11 "
+tagdebug_build() { # tagdebug_build <out>
+  if (cd "$H" && go build "${OV[@]}" -tags debug -o "$1" ./cmd/vcheck) 2>"$1.log"; then
+    export VERIF_TAGDEBUG_BIN="$1"
+  else
+    export VERIF_TAGDEBUG_ERR="the -tags debug build failed: $(tail -c 300 "$1.log" | tr '\n' ' ')"
+    echo "check.sh: -tags debug build unavailable, that pass is skipped" >&2
+  fi
+}
+
 cmd=${1:-}
 case "$cmd" in
   setup)
@@ -82,6 +94,13 @@ case "$cmd" in
       "$bin" -replay "$2"; rc=$?
       rm -rf "$bin" "$bin.log"; exit $rc
     fi
+    if grep -q '"build_tags": "debug"' "$2" 2>/dev/null; then
+      # a case recorded by the -tags debug pass is replayed by a binary built that way
+      tagdebug_build "$bin"
+      [ -n "${VERIF_TAGDEBUG_BIN:-}" ] || { echo "check.sh: cannot build the -tags debug binary" >&2; exit 2; }
+      "$bin" -replay "$2"; rc=$?
+      rm -rf "$bin" "$bin.log"; exit $rc
+    fi
     build "$bin" || exit 2
     if grep -q '"property": "C03"' "$2" 2>/dev/null; then
       build "$bin.debug" -tags debug || exit 2
@@ -102,6 +121,7 @@ mkdir -p "$D"
 trap 'rm -rf "$D"' EXIT
 build "$D/vcheck" || exit 2
 case "$W32_PROPS" in *" $id "*) w32_build "$D/vcheck.386" ;; esac
+case "$TAGDEBUG_PROPS" in *" $id "*) tagdebug_build "$D/vcheck.tagdebug" ;; esac
 case "$id" in
   C19)
     c19_builds "$D" ;;
